@@ -119,6 +119,12 @@ fn check_emission(rep: &mut Report, case: &str, spec: &serde_json::Value, webhoo
     let text = serde_json::to_string(spec).unwrap();
     let parsed = match parse_spec(&text, true) { Ok(s) => s, Err(e) => { rep.oracle_fail("specRejected", vec![], case, &e); return; } };
     let d = fresh_dir("emit");
+    // a share of the crates is generated over a lib.rs whose hand-written head supplies `default_http_client`
+    if case.contains("(fields [0") || case.contains("(fields [3") {
+        let _ = std::fs::create_dir_all(d.join("src"));
+        let _ = std::fs::write(d.join("src/lib.rs"), "//! kept by hand\npub fn default_http_client() -> httpclient::Client { httpclient::Client::new() }\n// libninja: after\n");
+        rep.bump("emission_over_a_customised_lib_rs");
+    }
     // a share of the crates is generated over the crate of an earlier revision of the document (other adapters needed)
     if let Some(p) = prior {
         if let Ok(pp) = parse_spec(&serde_json::to_string(p).unwrap(), true) { let _ = generate(&pp, &Cfg::new("Emit"), &d); rep.bump("emission_over_an_earlier_revision"); }
